@@ -260,3 +260,29 @@ def functions_of_model(b: bytes) -> list:
                     "attribute": [x.decode() for k, _, x in ff if k == FUNC["attribute"]],
                     "nodes": nodes})
     return out
+
+
+def type_proto(b: bytes):
+    """TypeProto -> ('tensor', elem_type, dims | None) | ('seq', inner) | ('opt', inner) | ('map', key, inner) | ('other',)
+    dims: list of int (dim_value), str (dim_param) or None (neither); None instead of a list = no shape field."""
+    for k, _, v in fields(b):
+        if k == 1:  # tensor_type
+            tf = fields(v)
+            shp = next((x for kk, _, x in tf if kk == 2), None)
+            dims = None
+            if shp is not None:
+                dims = []
+                for kk, _, d in fields(shp):
+                    if kk == 1:
+                        df = fields(d)
+                        dv = next((x for k3, _, x in df if k3 == 1), None)
+                        dp = next((x.decode() for k3, _, x in df if k3 == 2), None)
+                        dims.append(dv if dv is not None else dp)
+            return ("tensor", next((x for kk, _, x in tf if kk == 1), 0), dims)
+        if k in (4, 9):  # sequence_type / optional_type
+            inner = next((x for kk, _, x in fields(v) if kk == 1), b"")
+            return ("seq" if k == 4 else "opt", type_proto(inner))
+        if k == 5:
+            mf = fields(v)
+            return ("map", next((x for kk, _, x in mf if kk == 1), 0), type_proto(next((x for kk, _, x in mf if kk == 2), b"")))
+    return ("other",)
